@@ -188,6 +188,19 @@ def run(ctx):
                 I, J = int(k_[1]) - 1, int(k_[2]) - 1
                 if Cm[I, J] != v_ or Cm[J, I] != v_:
                     ctx.violation('%s constant %s is not the Voigt entry it names' % (name, k_), 'got %r' % Cm[I, J])
+            if name in ('hexagonal', 'rhombohedral'):
+                # the documented alternative parameter sets (2 C66 = C11 - C12): any two of C11, C12, C66, or all three
+                c66 = (kw['C11'] - kw['C12']) / 2
+                for drop in ('C12', 'C11', None):
+                    alt = dict(kw, C66=c66)
+                    if drop:
+                        del alt[drop]
+                    ctx.count()
+                    ctx.nontriv(('system', name, 'without', drop))
+                    Ca = EC(**alt).Cij
+                    if np.abs(Ca - Cm).max() > 1e-9 * np.abs(Cm).max():
+                        ctx.violation('%s constants given as %s describe another tensor than C11, C12 do' % (name, '+'.join(sorted(alt))),
+                                      'max diff %r' % np.abs(Ca - Cm).max())
             for g in G[name] + extra.get(name, []):
                 tg = ec.transform(g)
                 if np.abs(tg.Cij - Cm).max() > 1e-8 * np.abs(Cm).max():
